@@ -1,5 +1,5 @@
 (* C04 — Structure layout follows C rules; declared size equals bytes read and written. *)
-From VF Require Import Model.Writer Proofs.LayoutCorrect Proofs.CodecCorrect Proofs.SizeProps Proofs.RoundTrip Gen.GeneratedOk.
+From VF Require Import Model.Writer Proofs.LayoutCorrect Proofs.CodecCorrect Proofs.SizeProps Proofs.RoundTrip Proofs.AlignedSize Gen.GeneratedOk.
 Open Scope list_scope. Open Scope Z_scope.
 
 (* For every field list without bit fields and pre-set offsets whose members are statically sized, the
@@ -52,7 +52,18 @@ Theorem sizes_all_agree : forall c, endian_ok (c_endian c) -> forall fuel t n, f
     p = pos + n /\ forall wpos, exists bs, write_ty c t v wpos = Ok bs /\ zlen bs = n.
 Proof. exact sizes_agree. Qed.
 
+(* ALIGNED mode: for every fixed-size type built from scalars, fixed arrays and aligned structures of plain fields with power-of-two
+   alignments (nested to any depth), the declared size is a multiple of the alignment the start must respect, and a parse that starts at a
+   multiple of that alignment consumes exactly the declared size *)
+Theorem aligned_parse_consumes_declared_size : forall c fuel t, aflat c t = true -> forall n, ty_size c t = Some n ->
+  (req c t | n) /\ forall s pos ctx v p, (req c t | pos) -> read_ty c fuel t s pos ctx = Ok (v, p) -> p = pos + n.
+Proof. exact read_consumes_aligned. Qed.
+(* cls.alignment of a structure is the largest member alignment, as the C rule computes it *)
+Theorem struct_alignment_is_c_rule : forall c nm fs al, ty_align c (TStruct nm fs al) = snd (c_rule true 0 0 (map (member c) fs)).
+Proof. exact ty_align_struct. Qed.
+
 Print Assumptions layout_is_c.
+Print Assumptions aligned_parse_consumes_declared_size.
 Print Assumptions parse_consumes_declared_size.
 Print Assumptions sizes_all_agree.
 Print Assumptions c_aligned_next_multiple.
@@ -63,6 +74,8 @@ Print Assumptions padding_minimal.
 Definition ex_cfg := mkCfg "<"%string (PInt 8 false true) 8 [] [].
 Definition ex_fs := [Fld "a" false (TPrim (PInt 1 false true) 1) None None; Fld "b" false (TPrim (PInt 4 false true) 4) None None;
                      Fld "c" false (TPrim (PInt 3 true false) 4) None None; Fld "d" false (TArr (TPrim (PInt 2 false true) 2) (LFixed 3)) None None].
+Example ex_aflat : aflat ex_cfg (TStruct "s" (ex_fs ++ [Fld "in" false (TArr (TStruct "i" [Fld "x" false (TPrim (PInt 1 false true) 1) None None; Fld "y" false (TPrim (PInt 8 false true) 8) None None] true) (LFixed 2)) None None]) true) = true.
+Proof. vm_compute. reflexivity. Qed.
 Example ex_plain : forallb (plain_field ex_cfg) ex_fs = true.
 Proof. vm_compute. reflexivity. Qed.
 Example ex_layout : layout_struct ex_cfg true ex_fs = Ok (mkLay [Some 0; Some 4; Some 8; Some 12] (Some 20) 4)
